@@ -351,8 +351,17 @@ def op_prepare(U, op, rng):
     if k == "phenotype":
         from pybrops.breed.prot.pt.G_E_Phenotyping import G_E_Phenotyping
         nrep = op["nrep"] if isinstance(op["nrep"], int) else numpy.array(op["nrep"], dtype=int)
-        return G_E_Phenotyping(U.gpmod, nenv=op["nenv"], nrep=nrep, var_env=op["var_env"], var_rep=op["var_rep"],
-                               var_err=op["var_err"], rng=rng)
+        obj = G_E_Phenotyping(U.gpmod, nenv=op["nenv"], nrep=nrep, var_env=op["var_env"], var_rep=op["var_rep"],
+                              var_err=op["var_err"], rng=rng)
+        # a copy of a component is the same stochastic component: it draws from the same designated stream
+        via = op.get("via_copy")
+        if via == "copy.deepcopy":
+            obj = copy.deepcopy(obj)
+        elif via == "deepcopy":
+            obj = obj.deepcopy()
+        elif via == "copy":
+            obj = obj.copy()
+        return obj
     if k == "cfg":
         return _cfg_build(U, op, rng)
     if k == "select":
@@ -612,7 +621,7 @@ def gen_op(rnd, pop, kinds):
         nrep = rnd.choice([1, 2]) if rnd.random() < 0.6 else [rnd.choice([1, 2, 3]) for _ in range(nenv)]
         v = [0.0, 0.25, 1.0, 2.5]
         return dict(op="phenotype", nenv=nenv, nrep=nrep, var_env=rnd.choice(v), var_rep=rnd.choice(v), var_err=rnd.choice(v[1:]),
-                    reps=min(reps, 2))
+                    reps=min(reps, 2), via_copy=rnd.choice([None, None, "copy.deepcopy", "deepcopy", "copy"]))
     if k == "sus":
         m = rnd.choice([1, 2, 3, 4, 6])
         size = rnd.choice([1, 2, 3, 5, 6]) if rnd.random() < 0.7 else rnd.choice([[2, 2], [1, 3], [3, 2]])
